@@ -252,3 +252,116 @@ def check_inv(case, inv_call, tol):
                 return _fail(f"{case['method']} changed by {case['fx']['name']}"
                              f"{'/' + case['fy']['name'] if case['fy'] else ''}", [i, j, u], v, **feat)
     return None
+
+
+def _judge_sims(pc, got, ref, tol):
+    """a similarity matrix obtained in a session against the reference matrix"""
+    rtol, atol = tol
+    maps = '/'.join('identity' if mp is None else mp['name'] for mp in (pc['fx'], pc['fy']))
+    feat = dict(method=pc['method'], map=maps, claim='invariance')
+    label = f"{pc['method']} (arguments transformed by {maps})"
+    if isinstance(got, dict) or isinstance(ref, dict):
+        if got == ref:
+            return None if not isinstance(got, dict) else \
+                _fail(f'{label}: compare raised on valid RDMs', got, 'a similarity matrix',
+                      **dict(feat, claim='returns'))
+        return _fail(f'{label}: compare raised on valid RDMs' if isinstance(got, dict) else
+                     f'{label}: reference comparison raised', got, ref, **dict(feat, claim='returns'))
+    if len(got) != len(ref) or any(len(a) != len(b) for a, b in zip(got, ref)):
+        return _fail(f'{label}: shape of the similarity matrix', [len(got)], [len(ref)],
+                     **dict(feat, claim='returns'))
+    for i, (ra, rb) in enumerate(zip(got, ref)):
+        for j, (u, v) in enumerate(zip(ra, rb)):
+            if u is None or v is None:
+                if (u is None and v is None) or (u is None and v == 0.0) or (v is None and u == 0.0):
+                    continue        # 0/0 conventions of a zero-norm vector
+                return _fail(f'{label} differs from the comparison of the original RDMs', [i, j, u], v, **feat)
+            if not _close(u, v, rtol, atol):
+                return _fail(f'{label} differs from the comparison of the original RDMs', [i, j, u], v, **feat)
+    return None
+
+
+def whitened_by_definition(method, x, y, sig, n):
+    """cosine_cov / corr_cov with a diagonal sigma_k straight from the definition (no library code, no
+    state): V = (C diag(sigma) C^T) squared element-wise over the pairwise contrasts C, similarity =
+    x V^-1 y / sqrt(x V^-1 x * y V^-1 y), for corr_cov on the mean-removed vectors"""
+    pairs = [(i, j) for i in range(n) for j in range(i + 1, n)]
+    cm = np.zeros((len(pairs), n))
+    for k, (i, j) in enumerate(pairs):
+        cm[k, i], cm[k, j] = 1.0, -1.0
+    xi = cm @ np.diag(np.asarray(sig, dtype=float)) @ cm.T
+    vinv = np.linalg.inv(xi * xi)
+    x, y = np.asarray(x, dtype=float), np.asarray(y, dtype=float)
+    if method == 'corr_cov':
+        x = x - x.mean(axis=1, keepdims=True)
+        y = y - y.mean(axis=1, keepdims=True)
+    out = []
+    for a in x:
+        row = []
+        for b in y:
+            den = math.sqrt(float(a @ vinv @ a) * float(b @ vinv @ b))
+            row.append(float(a @ vinv @ b) / den if den > 0 else None)
+        out.append(row)
+    return out
+
+
+def check_sess(case, eng):
+    """a reuse session: the two objects are built once and every step works on them.  Every result is
+    judged against the definition applied to a PRISTINE copy of the original values (transform steps:
+    `check_tf` on the recorded result; comparison steps: the same comparison, by the same route, of
+    freshly built, untransformed copies — the measure is invariant under the maps that were applied);
+    after every step the source objects must still hold the values they were built from."""
+    res = eng.sess_call(case)
+    if 'exc' in res:
+        return None if any(v is None for o in case['objs'] for row in o['x'] for v in row) and \
+            not case['nanpos'] else _fail('building the RDMs raised', res['exc'], 'two RDMs objects',
+                                          claim='returns', kind='sess')
+    first_change = None
+    for k, (st, r) in enumerate(zip(case['steps'], res['steps'])):
+        if r.get('src_changed') and first_change is None:
+            first_change = (k, r['src_changed'])
+    ctx = {} if first_change is None else \
+        {'source_first_changed_by_step': first_change[0], 'change': first_change[1]}
+    for k, (st, r) in enumerate(zip(case['steps'], res['steps'])):
+        where = f'step {k} of {len(case["steps"])}'
+        if st['op'] == 'tf':
+            pc = eng._sess_tf_case(case, st)
+            f = check_tf(pc, lambda c, r=r: r, eng.source_descriptors(pc), eng.custom_fun)
+            if f:
+                f['what'] = f'reuse session: {f["what"]} ({where}; judged on the values the object was built from)'
+                f['features'] = dict(f['features'], kind='sess', step=k, **{'reused': k > 0})
+                if ctx:
+                    f['observed'] = {'result': f['observed'], **ctx}
+                return f
+        elif eng.sess_judged(case, st):
+            pc = eng._sess_inv_case(case, st)
+            f = _judge_sims(pc, r['sim'], eng.inv_call(pc, False), eng.inv_tolerance(pc))
+            if not f and st.get('sigma') is not None and not case['nanpos'] and \
+                    st['method'] in ('cosine_cov', 'corr_cov') and not isinstance(r['sim'], dict):
+                # the whitened measures keep no state between calls: also against the bare definition
+                ref = whitened_by_definition(st['method'], [[float(_fr(v)) for v in row] for row in pc['x']],
+                                             [[float(_fr(v)) for v in row] for row in pc['y']],
+                                             [float(_fr(v)) for v in st['sigma']['vec']], case['n'])
+                if not any(v is None for row in ref for v in row):
+                    f = _judge_sims(pc, r['sim'], ref, eng.inv_tolerance(pc))
+                    if f:
+                        f['what'] = f['what'].replace('the comparison of the original RDMs',
+                                                      'its definition on the original RDMs')
+            if f:
+                f['what'] = f'reuse session: {f["what"]} ({where}; against the same comparison of pristine, ' \
+                            f'untransformed copies)'
+                f['features'] = dict(f['features'], kind='sess', step=k, **{'reused': k > 0})
+                if ctx:
+                    f['observed'] = {'result': f['observed'], **ctx}
+                return f
+    if first_change is not None:
+        k, ch = first_change
+        st = case['steps'][k]
+        return _fail(f'reuse session: a {"transform" if st["op"] == "tf" else "comparison"} changed a source '
+                     f'object it was only supposed to read (step {k}: {eng._step_label(st)})', ch, 'the object as it was built', claim='source unchanged',
+                     kind='sess', step=k)
+    if res['results_changed']:
+        return _fail('reuse session: an earlier transform result was changed by a later step',
+                     res['results_changed'][0], 'the result as it was returned', claim='result unchanged',
+                     kind='sess')
+    return None
